@@ -76,6 +76,7 @@ type c18prog struct {
 	caches int
 	loops  int
 	stack  []string
+	extra  map[string]c18Bind // additional callee bindings of ONE program (composed programs: a leaf of one program inlined with another)
 }
 
 type c18fn struct {
@@ -365,6 +366,12 @@ func (p *c18prog) lookup(rel string, ce *ast.CallExpr) *ast.FuncDecl {
 
 func (p *c18prog) resolve(rel string, ce *ast.CallExpr) (string, *ast.FuncDecl) {
 	full := p.c.src(ce.Fun)
+	if b, ok := p.extra[full]; ok {
+		if fd := p.c.findFunc(b.rel, b.recv, b.name); fd != nil {
+			return b.rel, fd
+		}
+		return "", nil
+	}
 	if b, ok := c18Bindings[full]; ok {
 		if fd := p.c.findFunc(b.rel, b.recv, b.name); fd != nil {
 			return b.rel, fd
@@ -1206,11 +1213,13 @@ func (c *ctxT) c18Programs() string {
 		fmt.Fprintf(&sb, "/-- %s -/\ndef %s : Stmt :=\n  %s\n\n", doc, ident, leanStmt(body, "  "))
 		c.facts["C18.prog."+ident] = body
 	}
+	var extraBind map[string]c18Bind
 	top := func(rel string, fd *ast.FuncDecl, list []ast.Stmt, prescanRoot ast.Node) *irStmt {
 		if fd == nil || list == nil {
 			return nil
 		}
 		p := c.c18NewProg()
+		p.extra = extraBind
 		f := p.newFn(rel)
 		f.qual = fd.Name.Name
 		f.prescan(prescanRoot)
@@ -1287,6 +1296,26 @@ func (c *ctxT) c18Programs() string {
 			}
 			prog = top("x/gov", fd, list, fd.Body)
 		}
+		// 3a. the FIRST part of EndBlocker: the walk over the inactive proposals whose deposit period ended (delete, refund
+		//     or burn the deposits, AfterProposalFailedMinDeposit hook on a branch that is written only if the hook succeeds)
+		{
+			var inactive *irStmt
+			if fd := c.findFunc("x/gov", "", "EndBlocker"); fd != nil && fd.Body != nil {
+				for i, st := range fd.Body.List {
+					if as, ok := st.(*ast.AssignStmt); ok && len(as.Rhs) == 1 && strings.Contains(c.src(as.Rhs[0]), "InactiveProposalsQueue.Walk") {
+						end := i + 1
+						if end < len(fd.Body.List) {
+							if is, ok := fd.Body.List[end].(*ast.IfStmt); ok && strings.Contains(c.src(is.Cond), "err != nil") {
+								end++
+							}
+						}
+						inactive = top("x/gov", fd, fd.Body.List[:end], fd.Body)
+						break
+					}
+				}
+			}
+			emit("govInactiveProg", "gov `EndBlocker`, first part: the walk over the inactive proposals whose deposit period ended, as a loop over the proposals of the block", inactive)
+		}
 		emit("govProg", "gov `EndBlocker` after the walk over the inactive proposals: the walk over the active proposals whose voting period ended as a loop over the proposals of the block, `safeExecuteHandler` inlined", prog)
 	}
 
@@ -1296,6 +1325,17 @@ func (c *ctxT) c18Programs() string {
 		emit("executeClaimPrecompileProg", "`ExecuteClaimMethod.Run` of the crosschain precompile (`ExecuteClaim` of the keeper is a leaf here; its body is `executeClaimProg`)", top("x/crosschain/precompile", fd, fd.Body.List, fd.Body))
 	} else {
 		emit("executeClaimPrecompileProg", "NOT FOUND", nil)
+	}
+
+	// 3c. the WHOLE executeClaim transaction: the precompile method with the keeper's ExecuteClaim inlined (router binding
+	//     crosschainKeeper.ExecuteClaim -> x/crosschain/keeper.Keeper.ExecuteClaim): the native action is cache 1, the
+	//     cache BridgeCallHandler opens is a branch OF that cache
+	if fd := c.findFunc("x/crosschain/precompile", "ExecuteClaimMethod", "Run"); fd != nil && fd.Body != nil {
+		extraBind = map[string]c18Bind{"crosschainKeeper.ExecuteClaim": {"x/crosschain/keeper", "Keeper", "ExecuteClaim"}}
+		emit("executeClaimTxProg", "`ExecuteClaimMethod.Run` with the keeper's `ExecuteClaim` (→ `BridgeCallHandler` → `BridgeCallEvm` / `BridgeCallFailedRefund`) inlined into the native action", top("x/crosschain/precompile", fd, fd.Body.List, fd.Body))
+		extraBind = nil
+	} else {
+		emit("executeClaimTxProg", "NOT FOUND", nil)
 	}
 
 	// 4. ibc-go core RecvPacket (the version named in /repo/go.mod) with the application callback bound to
